@@ -360,3 +360,31 @@ Proof.
   intros P Hg F. intros. unfold split_silence.
   rewrite <- (silence_valid_perm s s' gap P Hg F). now apply extract_valid_perm.
 Qed.
+
+(** * extract_subsequence (one window) and trim_note_sequence *)
+Definition extract1_rel (a b : res seq) : Prop :=
+  match a, b with
+  | Ok p, Ok p' => seq_perm p p'
+  | Err e, Err e' => e = e'
+  | _, _ => False
+  end.
+
+Theorem perm_extract_one pres s s' a b : seq_perm s s' ->
+  distinct_on tp_time (s_tempos s) -> distinct_on ts_time (s_tsigs s) -> distinct_on ks_time (s_ksigs s) ->
+  distinct_on tx_time (chords_of s) -> distinct_on cc_kind_time (s_ccs s) ->
+  extract1_rel (extract_subsequence pres s a b) (extract_subsequence pres s' a b).
+Proof.
+  intros P D1 D2 D3 D4 D5. unfold extract_subsequence.
+  pose proof (perm_extract pres s s' [a; b] P D1 D2 D3 D4 D5) as H.
+  destruct (extract_subsequences pres s [a; b]) as [ps|e], (extract_subsequences pres s' [a; b]) as [ps'|e'];
+    cbn in H; try contradiction; [|exact H].
+  destruct H; [reflexivity|assumption].
+Qed.
+
+Theorem perm_trim s s' a b : seq_perm s s' -> extract1_rel (trim s a b) (trim s' a b).
+Proof.
+  intros P. unfold trim. rewrite <- (x_is_quantized_perm _ _ P).
+  destruct (is_quantized s); [reflexivity|]. cbn [extract1_rel].
+  destruct P. constructor; cbn; try assumption; try congruence.
+  now apply Permutation_map, perm_filter.
+Qed.
